@@ -474,4 +474,112 @@ class CheckPlugin(FnSpec):
 
 def add_pgschema(reg):
     reg.set_class_home("PGSchemaObj", "schema/pg.py", "PGSchema")
-    return [ComputeParentPath(), InitPlugin(), PluginDeps(), Lookup("parent_path"), Lookup("children"), CheckPlugin()]
+    return [ComputeParentPath(), InitPlugin(), PluginDeps(), Lookup("parent_path"), Lookup("children"), CheckPlugin(), InferParent()]
+
+
+# ---- infer_parent (schema/core.py): which class counts as THE parent of a schema ---------------------------------------------------------------------------------
+MRO_LEN = z3.Int("length_of_the_mro")
+MRO = z3.Function("mro_entry", I, Cls)
+IS_SCHEMA = z3.Function("is_subclass_of_MetadataSchema", Cls, B)
+OWN_PLUGIN = z3.Function("has_a_Plugin_section_of_its_own", Cls, B)
+
+
+class MroClass(SVal):
+    def __init__(self, t):
+        self.t = t
+
+    def py_getattr(self, cx, n):
+        if n == "__dict__":
+            return OwnDict(self.t)
+        raise Unsupported("class attribute " + n)
+
+
+class OwnDict(SVal):
+    def __init__(self, c):
+        self.c = c
+
+    def meth_get(self, cx, k, d=None):
+        if k != "Plugin" or d is not None:
+            raise Unsupported("another key of the class dict")
+        return SMaybe(z3.Not(OWN_PLUGIN(self.c)), "the-own-plugin-section")
+
+
+class PluginCls(SVal):
+    def py_getattr(self, cx, n):
+        if n == "__mro__":
+            return MroTok(0)
+        raise Unsupported("class attribute " + n)
+
+
+class MroTok(SVal):
+    def __init__(self, lo):
+        self.lo = lo
+
+    def py_getitem(self, cx, idx):
+        from pyvc.values import SliceVal
+
+        if isinstance(idx, SliceVal) and isinstance(idx.lo, int) and idx.lo >= 0 and idx.hi is None and idx.step is None:
+            return MroTok(self.lo + idx.lo)
+        raise Unsupported("another index of the mro")
+
+
+class FilterTok(SVal):
+    def __init__(self, pred, src):
+        self.pred, self.src = pred, src
+
+
+class InferParent(FnSpec):
+    file = "schema/core.py"
+    qual = "infer_parent"
+    props = ("C13", "C07", "C20")
+
+    def init(self):
+        self.bindings["MetadataSchema"] = "MetadataSchema-class"
+        self.bindings["issubclass"] = lambda cx, c, b: SBool(IS_SCHEMA(c.t)) if isinstance(c, MroClass) and b == "MetadataSchema-class" else (_ for _ in ()).throw(Unsupported("issubclass of something else"))
+
+        def _filter(cx, f, src):
+            from pyvc.values import as_bool, truth
+
+            if not isinstance(src, MroTok):
+                raise Unsupported("filter over something else than the mro")
+
+            def pred(i):
+                v, fails, axioms = cx.run.interp.eval_on_element(cx, f, MroClass(MRO(i)), i, truth_only=True)
+                if fails or axioms:
+                    raise Unsupported("the test may raise")
+                return as_bool(cx, truth(cx, v))
+
+            return FilterTok(pred, src)
+
+        def _next(cx, it, *d):
+            if not isinstance(it, FilterTok) or d != (None,):
+                raise Unsupported("next() of something else")
+            j = z3.Int(fresh_name("first_match"))
+            k = z3.Int(fresh_name("nk"))
+            none = z3.Bool(fresh_name("no_match"))
+            lo = it.src.lo
+            cx.assume(z3.Implies(none, z3.ForAll([k], z3.Implies(z3.And(lo <= k, k < MRO_LEN), z3.Not(it.pred(k))))))  # T4 next(filter(...), None)
+            cx.assume(z3.Implies(z3.Not(none), z3.And(lo <= j, j < MRO_LEN, it.pred(j), z3.ForAll([k], z3.Implies(z3.And(lo <= k, k < j), z3.Not(it.pred(k)))))))
+            cx.ghost["ifp_j"] = j
+            return SMaybe(none, ClsV(MRO(j)))
+
+        self.bindings["filter"] = _filter
+        self.bindings["next"] = _next
+
+    def setup(self, cx):
+        cx.assume(MRO_LEN >= 2)  # the class itself and object
+        return A(plugin=PluginCls())
+
+    def raises(self, cx, a):
+        return {}
+
+    def ensures(self, cx, a, res):
+        k = z3.Int(fresh_name("ek"))
+        q = lambda i: z3.And(IS_SCHEMA(MRO(i)), OWN_PLUGIN(MRO(i)))  # noqa: E731
+        j = cx.ghost.get("ifp_j")
+        if not isinstance(res, SMaybe) or j is None:
+            return [("a-class-or-none", z3.BoolVal(False), "")]
+        return [
+            ("none-iff-no-proper-base-is-a-schema-plugin", res.isnone == z3.ForAll([k], z3.Implies(z3.And(1 <= k, k < MRO_LEN), z3.Not(q(k)))), "no parent exactly when no PROPER base class (the class itself is skipped) is a MetadataSchema with a Plugin section of its own"),
+            ("else-the-nearest-such-base", z3.Implies(z3.Not(res.isnone), z3.And(res.val.t == MRO(j), 1 <= j, j < MRO_LEN, q(j), z3.ForAll([k], z3.Implies(z3.And(1 <= k, k < j), z3.Not(q(k)))))), "otherwise the parent is the NEAREST such base in the mro: intermediate classes that are not plugins (or only inherit a Plugin section) are skipped — this is the class the override check compares against and the next link of the registered chain"),
+        ]
